@@ -414,7 +414,13 @@ func cmdCheck(args []string) int {
 			n++
 		}
 	}
+	// inputs of paths the engine could not follow ("unsupported"): native fallback
+	var unsupp []*Candidate
+	for _, r := range runs {
+		unsupp = append(unsupp, r.UnsuppSamples...)
+	}
 	all := append(append([]*Candidate{}, cands...), samples...)
+	all = append(all, unsupp...)
 	results, err := replayBatch(br.bin, all, 3*time.Second)
 	if err != nil {
 		fmt.Println("native replay failed:", err)
@@ -528,6 +534,41 @@ func cmdCheck(args []string) int {
 				mismatchNotes = append(mismatchNotes, fmt.Sprintf("%s %s: %s", s.Harness, fmtValues(s.Values), bad))
 			}
 		}
+	}
+	// unsupported paths, natively: an assertion failure or a panic there is a violation
+	unsuppRan, unsuppBad := 0, 0
+	for i, u := range unsupp {
+		r := &results[nCand+len(samples)+i]
+		if !r.Ran {
+			continue
+		}
+		unsuppRan++
+		var c *Candidate
+		switch {
+		case len(r.Failed) > 0:
+			c = &Candidate{Harness: u.Harness, Params: u.Params, Kind: "assert", ID: r.Failed[0], Tags: u.Tags, Values: u.Values, Msg: "found natively on a path the engine does not support: " + u.ID}
+		case r.Status == "panic" || r.Status == "crash" || r.Status == "hang":
+			c = &Candidate{Harness: u.Harness, Params: u.Params, Kind: map[string]string{"panic": "panic", "crash": "panic", "hang": "hang"}[r.Status], ID: "native:" + r.Status, Tags: u.Tags, Values: u.Values, Msg: r.Detail}
+		}
+		if c == nil {
+			continue
+		}
+		isKnown := false
+		for j := range known.Findings {
+			if known.Findings[j].matches(*prop, c) {
+				isKnown = true
+			}
+		}
+		if !isKnown {
+			unsuppBad++
+			violations++
+			p := writeReplay(*prop, c)
+			vioLines = append(vioLines, fmt.Sprintf("VIOLATION property=%s replay=%s", *prop, p))
+			fmt.Printf("  violated (native run of an engine-unsupported path): %s [%s] %s values: %s\n", c.Harness, c.ID, c.Msg, fmtValues(c.Values))
+		}
+	}
+	if len(unsupp) > 0 {
+		fmt.Printf("  %d engine-unsupported paths sampled natively, %d failed\n", unsuppRan, unsuppBad)
 	}
 	for _, n := range mismatchNotes {
 		fmt.Println("  ENGINE-MISMATCH:", n)
